@@ -137,7 +137,9 @@ def rt_cases(tier):
                     out.append(_rt('grid', T, [FULL, v, TD, h]))
                     out.append(_rt('grid-late', T, [0, 0, 0, 'z'], [T // 3, [FULL, v, TD, h]]))
                     out.append(_rt('grid-late', T, [FULL, 0, TD, 'z'], [T // 3, [FULL, v, TD, h]]))
-                    out.append(_rt('grid-late', T, [FULL, 16, TD, 's'], [T // 3, [FULL, v if v else 16, TD, h]]))
+                    # once the file is mapped and its version accepted only the heartbeat changes (a version word that changes
+                    # under a mapping races with the freshness test: not a scenario of the real-time tier)
+                    out.append(_rt('grid-late', T, [FULL, 16, TD, 's'], [T // 3, [FULL, 16, TD, h]]))
     return out
 
 
